@@ -87,11 +87,31 @@ Prod == [
   \* ---- declarations ----
   net_decl |-> << AT(<<K("wire"), I, S(";")>>, "NetDeclAssignment"), AT(<<K("wire")>> \o Rng \o <<I, S(";")>>, "NetDeclAssignment"),
                   AT(<<K("wire"), I, S("="), N("expr"), S(";")>>, "NetDeclAssignment"), AT(<<K("tri"), I, S(";")>>, "NetDeclAssignment"),
-                  AT(<<K("wand"), K("signed")>> \o Rng \o <<I, S(";")>>, "NetDeclAssignment") >>,
+                  AT(<<K("wand"), K("signed")>> \o Rng \o <<I, S(";")>>, "NetDeclAssignment"),
+                  AT(<<K("wor"), I, S(";")>>, "NetDeclAssignment"), AT(<<K("tri0"), I, S(";")>>, "NetDeclAssignment"), AT(<<K("tri1"), I, S(";")>>, "NetDeclAssignment"),
+                  AT(<<K("supply0"), I, S(";")>>, "NetDeclAssignment"), AT(<<K("supply1"), I, S(";")>>, "NetDeclAssignment"), AT(<<K("uwire"), I, S(";")>>, "NetDeclAssignment"),
+                  AT(<<K("triand"), I, S(";")>>, "NetDeclAssignment"), AT(<<K("trior"), I, S(";")>>, "NetDeclAssignment"),
+                  AT(<<K("wire"), K("logic")>> \o Rng \o <<I, S(";")>>, "NetDeclAssignment"),
+                  AT(<<K("wire"), S("#"), S("2"), I, S(";")>>, "NetDeclAssignment"),
+                  AT(<<K("wire"), S("("), K("strong0"), S(","), K("weak1"), S(")"), I, S("="), L("DecimalNumber"), S(";")>>, "NetDeclAssignment"),
+                  AT(<<K("wire"), K("vectored")>> \o Rng \o <<I, S(";")>>, "NetDeclAssignment"),
+                  AT(<<K("wire"), I>> \o Rng \o <<S(";")>>, "NetDeclAssignment") >>,
   var_decl |-> << AT(<<K("logic"), I, S(";")>>, "VariableDeclAssignment"), AT(<<K("int"), I, S(";")>>, "VariableDeclAssignment"),
                   AT(<<K("logic")>> \o Rng \o <<I, S(";")>>, "VariableDeclAssignment"), AT(<<K("reg")>> \o Rng \o <<I, S(";")>>, "VariableDeclAssignment"),
                   AT(<<K("bit"), I, S("="), N("expr"), S(";")>>, "VariableDeclAssignment"), AT(<<K("real"), I, S(";")>>, "VariableDeclAssignment"),
-                  AT(<<K("integer"), I, S(";")>>, "VariableDeclAssignment"), AT(<<K("byte"), K("unsigned"), I, S(";")>>, "VariableDeclAssignment") >>,
+                  AT(<<K("integer"), I, S(";")>>, "VariableDeclAssignment"), AT(<<K("byte"), K("unsigned"), I, S(";")>>, "VariableDeclAssignment"),
+                  \* unpacked dimensions, queues, associative and dynamic arrays, strings, events, time, multiple packed dimensions
+                  AT(<<K("logic")>> \o Rng \o <<I>> \o Rng \o <<S(";")>>, "VariableDeclAssignment"),
+                  AT(<<K("int"), I, S("["), S("$"), S("]"), S(";")>>, "VariableDeclAssignment"),
+                  AT(<<K("int"), I, S("["), K("string"), S("]"), S(";")>>, "VariableDeclAssignment"),
+                  AT(<<K("bit"), I, S("["), S("]"), S(";")>>, "VariableDeclAssignment"),
+                  AT(<<K("string"), I, S("="), L("StringLiteral"), S(";")>>, "VariableDeclAssignment"),
+                  AT(<<K("event"), I, S(";")>>, "VariableDeclAssignment"), AT(<<K("time"), I, S(";")>>, "VariableDeclAssignment"),
+                  AT(<<K("logic")>> \o Rng \o Rng \o <<I, S(";")>>, "VariableDeclAssignment"),
+                  AT(<<K("var"), K("logic"), I, S(";")>>, "VariableDeclAssignment"), AT(<<K("const"), K("int"), I, S("="), L("DecimalNumber"), S(";")>>, "VariableDeclAssignment"),
+                  AT(<<K("static"), K("int"), I, S(";")>>, "VariableDeclAssignment"), AT(<<K("shortint"), I, S(";")>>, "VariableDeclAssignment"),
+                  AT(<<K("longint"), K("unsigned"), I, S(";")>>, "VariableDeclAssignment"), AT(<<K("shortreal"), I, S(";")>>, "VariableDeclAssignment"),
+                  AT(<<K("realtime"), I, S(";")>>, "VariableDeclAssignment"), AT(<<K("chandle"), I, S(";")>>, "VariableDeclAssignment") >>,
   typedef_decl |-> << AT(<<K("typedef"), K("logic"), N("range"), N("type_name"), S(";")>>, "TypeDeclaration"),
                       AT(<<K("typedef"), K("int"), N("type_name"), S(";")>>, "TypeDeclaration"),
                       AT(<<K("typedef"), K("enum"), S("{"), N("enum_name"), S(","), N("enum_name"), S("}"), N("type_name"), S(";")>>, "TypeDeclaration"),
@@ -119,7 +139,25 @@ Prod == [
   stmt |-> << A(<<N("stmt_nn")>>), A(<<S(";")>>) >>,          \* statement_or_null
   stmt_nn |-> << A(<<N("nonblocking")>>), A(<<N("blocking")>>), A(<<N("systf_call")>>),
               G(<<N("if_stmt")>>), G(<<N("case_stmt")>>), G(<<N("for_stmt")>>), G(<<N("while_stmt")>>), G(<<N("seq_block")>>),
-              G(<<N("tf_call_stmt")>>), G(<<S("#"), S("10"), N("stmt")>>), G(<<S("@"), S("("), K("posedge"), N("ident"), S(")"), N("stmt")>>) >>,
+              G(<<N("tf_call_stmt")>>), G(<<S("#"), S("10"), N("stmt")>>), G(<<S("@"), S("("), K("posedge"), N("ident"), S(")"), N("stmt")>>),
+              G(<<N("more_stmt")>>) >>,
+  \* further statement forms (A.6): jumps, waits, disable, fork-join, immediate assertions, inc/dec, compound assignment,
+  \* do-while / foreach loops, procedural continuous assignment, event trigger, method call statement
+  more_stmt |-> << A(<<K("break"), S(";")>>), A(<<K("continue"), S(";")>>), A(<<K("return"), S(";")>>),
+                   G(<<K("wait"), S("("), N("expr"), S(")"), N("stmt")>>), A(<<K("disable"), N("ident"), S(";")>>), A(<<K("disable"), K("fork"), S(";")>>),
+                   A(<<K("wait"), K("fork"), S(";")>>),
+                   G(<<K("fork"), N("stmts"), K("join")>>), G(<<K("fork"), N("stmts"), K("join_any")>>), G(<<K("fork"), S(":"), N("ident"), N("stmts"), K("join_none")>>),
+                   G(<<K("assert"), S("("), N("expr"), S(")"), N("stmt")>>), G(<<K("assert"), S("("), N("expr"), S(")"), N("systf_call"), K("else"), N("else_stmt")>>), G(<<K("assert"), S("("), N("expr"), S(")"), K("else"), N("else_stmt")>>),
+                   G(<<K("assume"), S("("), N("expr"), S(")"), S(";")>>), G(<<N("ident"), S(":"), K("cover"), S("("), N("expr"), S(")"), S(";")>>),
+                   A(<<N("ident"), S("++"), S(";")>>), A(<<S("--"), N("ident"), S(";")>>),
+                   G(<<N("lvalue"), S("+="), N("expr"), S(";")>>), G(<<N("lvalue"), S("<<="), N("expr"), S(";")>>), G(<<N("lvalue"), S("|="), N("expr"), S(";")>>),
+                   AT(<<K("do"), N("stmt"), K("while"), S("("), N("expr"), S(")"), S(";")>>, "LoopStatement"),
+                   AT(<<K("foreach"), S("("), N("ident"), S("["), N("ident"), S("]"), S(")"), N("stmt_nn")>>, "LoopStatement"),
+                   G(<<K("assign"), N("ident"), S("="), N("expr"), S(";")>>), A(<<K("deassign"), N("ident"), S(";")>>),
+                   G(<<K("force"), N("ident"), S("="), N("expr"), S(";")>>), A(<<K("release"), N("ident"), S(";")>>),
+                   A(<<S("->"), N("ident"), S(";")>>), A(<<S("->>"), N("ident"), S(";")>>),
+                   G(<<N("ident"), S("."), N("ident"), S("("), N("expr"), S(")"), S(";")>>),
+                   G(<<N("lvalue"), S("="), S("#"), S("5"), N("expr"), S(";")>>), AT(<<N("lvalue"), S("<="), S("@"), S("("), K("negedge"), N("ident"), S(")"), N("expr"), S(";")>>, "NonblockingAssignment") >>,
   \* first statement of a begin-end block: never a plain blocking assignment (see module comment)
   stmt_first |-> << A(<<N("nonblocking")>>), A(<<N("systf_call")>>), A(<<S(";")>>), G(<<N("if_stmt")>>), G(<<N("case_stmt")>>), G(<<N("seq_block")>>) >>,
   blocking |-> << G(<<N("lvalue"), S("="), N("expr"), S(";")>>), A(<<N("ident"), S("="), L("DecimalNumber"), S(";")>>) >>,
@@ -161,7 +199,20 @@ Prod == [
                  G(<<S("{"), N("expr"), S(","), N("expr"), S("}")>>), G(<<S("{"), L("DecimalNumber"), S("{"), N("expr"), S("}"), S("}")>>),
                  G(<<N("ident"), S("["), N("expr"), S("]")>>), A(<<N("ident")>> \o Rng),
                  G(<<N("ident"), S("("), N("expr"), S(")")>>), A(<<N("ident"), S("."), N("ident"), S("."), N("ident")>>),
-                 A(<<N("ident"), S("["), N("ident"), S("+:"), L("DecimalNumber"), S("]")>>) >>,
+                 A(<<N("ident"), S("["), N("ident"), S("+:"), L("DecimalNumber"), S("]")>>),
+                 \* method calls and chains of them, casts, inside, assignment patterns, streaming, system functions, min:typ:max
+                 G(<<N("ident"), S("."), N("ident"), S("("), S(")")>>),
+                 G(<<N("ident"), S("."), N("ident"), S("("), S(")"), S("."), N("ident"), S("("), S(")"), S("."), N("ident"), S("("), N("expr"), S(")")>>),
+                 G(<<N("ident"), S("."), N("ident"), S("("), N("expr"), S(")"), S("."), N("ident"), S("("), S(")"), S("."), N("ident"), S("("), S(")"), S("."), N("ident"), S("("), S(")")>>),
+                 G(<<K("int"), S("'"), S("("), N("expr"), S(")")>>), G(<<K("signed"), S("'"), S("("), N("expr"), S(")")>>),
+                 G(<<L("DecimalNumber"), S("'"), S("("), N("expr"), S(")")>>),
+                 G(<<S("("), N("expr"), K("inside"), S("{"), L("DecimalNumber"), S(","), S("["), L("DecimalNumber"), S(":"), L("DecimalNumber"), S("]"), S("}"), S(")")>>),
+                 G(<<S("'{"), N("expr"), S(","), N("expr"), S("}")>>), G(<<S("'{"), K("default"), S(":"), N("expr"), S("}")>>),
+                 G(<<S("{"), S("<<"), S("{"), N("expr"), S("}"), S("}")>>), G(<<S("{"), S(">>"), L("DecimalNumber"), S("{"), N("expr"), S(","), N("expr"), S("}"), S("}")>>),
+                 GT(<<S("$clog2"), S("("), N("expr"), S(")")>>, "SystemTfCall"), AT(<<S("$bits"), S("("), N("ident"), S(")")>>, "SystemTfCall"), AT(<<S("$time")>>, "SystemTfCall"),
+                 G(<<S("("), N("expr"), S(":"), N("expr"), S(":"), N("expr"), S(")")>>),
+                 A(<<N("ident"), S("::"), N("ident")>>), A(<<K("this"), S("."), N("ident")>>), A(<<K("null")>>), A(<<S("$")>>),
+                 G(<<N("ident"), S("["), N("expr"), S("]"), S("["), N("expr"), S("]"), S("."), N("ident")>>) >>,
   binop |-> << A(<<S("+")>>), A(<<S("-")>>), A(<<S("*")>>), A(<<S("/")>>), A(<<S("%")>>), A(<<S("==")>>), A(<<S("!=")>>), A(<<S("===")>>),
                A(<<S("!==")>>), A(<<S("&&")>>), A(<<S("||")>>), A(<<S("**")>>), A(<<S("<")>>), A(<<S("<=")>>), A(<<S(">")>>), A(<<S(">=")>>),
                A(<<S("&")>>), A(<<S("|")>>), A(<<S("^")>>), A(<<S("^~")>>), A(<<S("~^")>>), A(<<S(">>")>>), A(<<S("<<")>>), A(<<S(">>>")>>),
